@@ -77,9 +77,9 @@ func waitNoGoroutines(bound time.Duration, markers ...string) (int, []string) {
 }
 
 func runC09(c *core.Ctx) {
-	c.Cases("wclose", c.N(260, 5000), func(k *core.Case) { c09Writer(k) })
-	c.Cases("rclose", c.N(160, 3000), func(k *core.Case) { c09Reader(k) })
-	c.Cases("transport", c.N(60, 1200), func(k *core.Case) { c09Transport(k) })
+	c.Cases("wclose", c.N(260, 12000), func(k *core.Case) { c09Writer(k) })
+	c.Cases("rclose", c.N(160, 7000), func(k *core.Case) { c09Reader(k) })
+	c.Cases("transport", c.N(60, 3000), func(k *core.Case) { c09Transport(k) })
 }
 
 var readerMarkers = []string{"kafka-go.(*Reader).", "kafka-go.(*reader).", "kafka-go.(*ConsumerGroup).", "kafka-go.(*Generation).", "kafka-go.NewConsumerGroup"}
